@@ -56,3 +56,77 @@ reg("C05", "rv-engine", "exploration", "whole-database well-formedness walker",
 reg("C02", "rv-engine", "fault_enumeration", "fault-injection sweep + failure-shape allow-list monitor",
     "For each generated manifest on an aged ledger the number n of injectable system-callback steps is learned, then the manifest is re-executed from the same snapshot with a system error injected at every step 1..=n (or 250 spread points when n > 300); each commit-failure receipt's raw state diff and events are classified against the allow-list of the property (fee vault balances by exactly -payment, validator reward bookkeeping, replay-protection record, fee events only) and the whole-database walkers run on sampled post-failure states. Natural failures of the workload are classified the same way in every ledger run.",
     _LEDGER_NOTE + " Injected error kind is the costing error of scrypto-test's injector.", "DESIGN.md §4 C02")
+
+_STORE_NOTE = "Trusted: blake2b hashing, the BTreeMap model and from-scratch commitment in the harness, RocksDB itself. Generated keys honour the Jellyfish tree's documented prefix-free precondition. Decides only the seeded histories produced."
+reg("C12", "rv-track", "exploration", "reference-model monitor (BTreeMap base + overlay) on the real Track",
+    "Random operation histories (create_node, get, set, remove, force_write, mark_as_transient, scan_keys, drain_substates, scan_sorted_substates with limits around the present count, reverts, finalize) run on the real Track over random base databases and are compared step by step with an overlay model written from the property text; the final state updates applied to the base must equal the model and mention only written substates; after revert only force-written substates may remain.",
+    "Trusted: InMemorySubstateDatabase as base store, the key mapper for database order. In-engine Track traffic is not hooked (direct API only).", "DESIGN.md §4 C12")
+reg("C13", "rv-track", "exploration", "reader/writer model over lock event logs (direct + hook H2)",
+    "A reader/writer model keyed by (node, partition, key) judges every grant, refusal and release: (a) random lock/unlock/query histories on the real SubstateLocks, (b) the lock event log emitted by hook H2 while real transactions run (re-entrancy and recursion packages, failing transactions, proofs, fee locks, mixed ledger workload).",
+    "Trusted: hook H2 reports each lock()/unlock() call faithfully (3 add-only emit sites).", "DESIGN.md §4 C13")
+reg("C14", "rv-store", "exploration", "differential monitoring of overlay vs model after every commit",
+    "W-DB commit histories (deltas, deletes, partition resets, reset-then-delta, emptied partitions) are applied to overlays of five kinds; after every commit every get and every ordered listing from every interesting cursor is compared with a BTreeMap model, and the merged base with the model and with a base that received the commits directly.",
+    _STORE_NOTE, "DESIGN.md §4 C14")
+reg("C15", "rv-store", "exploration", "differential monitoring of three store implementations vs model",
+    "The same W-DB history is committed to the in-memory store, the RocksDB store and the RocksDB+Merkle store (pruning on/off, random close+reopen); after each commit gets, sorted listings from every cursor and the set of partitions are compared with the BTreeMap model.",
+    _STORE_NOTE, "DESIGN.md §4 C15")
+reg("C17", "rv-store", "exploration", "independent from-scratch sparse-Merkle commitment oracle",
+    "After every commit the root produced by the real state tree (typed, serialized, pruning and StateTreeUpdatingDatabase stores) is compared with a history-independent three-tier sparse-Merkle commitment recomputed from scratch over the model's current substates; each history is applied one commit per update, in random batches and as a single batch; empty state must have the zero root; listed substate hashes must equal the hashes of stored values.",
+    _STORE_NOTE, "DESIGN.md §4 C17")
+reg("C18", "rv-store", "exploration", "reachability walker over the real tree stores",
+    "An own tier-aware walker (get_node + child key generation) checks after every commit that every node reachable from the current root is present in a pruning store and that every part reported stale is unreachable from the root of that commit and of all later commits.",
+    _STORE_NOTE, "DESIGN.md §4 C18")
+reg("C19", "rv-store", "fault_enumeration", "crash-point sweep with real process death (hook H3)",
+    "For every commit of a W-DB history and every individual write of that commit (crash points of hook H3) a child process replays the history and aborts right before that write; the parent reopens the RocksDB directory and requires (version, root) to be the pre- or post-commit pair, the stored substates to be exactly that version's, the root to equal the from-scratch commitment of what is stored and the tree to be fully walkable. Pruning on and off.",
+    _STORE_NOTE + " Models process death (kill -9), not power loss with lost un-fsynced WAL tails.", "DESIGN.md §4 C19")
+reg("C20", "rv-sbor", "exploration", "differential monitoring against an independent wire-format reader/writer",
+    "Generated value trees and byte strings (16 mutators) for the Basic, Scrypto and Manifest flavours: encode must equal an independent writer and decode back equal; the decoder accepts a byte string iff an independent reader of the wire format does, with equal trees and identical re-encoding.",
+    _PURE_NOTE, "DESIGN.md §4 C20")
+reg("C21", "rv-sbor", "exploration", "three-way differential (decoder/traverser/encoder) + allocation monitor",
+    "Hostile payloads under random depth limits: no panic; peak heap of a decode measured with a counting allocator against a size-proportional bound; decoder, traverser and encoder must agree on acceptance and on the depth threshold; a 29-type typed-codec roster must share the threshold; memory-unsafe typed paths are probed in child processes.",
+    _PURE_NOTE + " Depth limit 0 is outside the monitored domain.", "DESIGN.md §4 C21")
+reg("C22", "rv-sbor", "exploration", "harvest-and-mutate monitor: typed codec vs generated schema",
+    "For 243 engine types payloads generated from the type's own schema, harvested from a real in-memory genesis bootstrap, and their tree/byte mutants: typed decode accepts => the payload validates against the type's generated schema; encode(decode(p)) validates and decodes back equal.",
+    _PURE_NOTE, "DESIGN.md §4 C22")
+reg("C23", "rv-sbor", "exploration", "payload-level soundness oracle for schema comparison",
+    "Random schema pairs (22 mutation kinds) under 8 comparison settings; whenever the comparison claims valid extension (or equality) payloads generated from the base schema (and from both) are validated under both schemas; a base-valid payload rejected by the new schema refutes the claim.",
+    _PURE_NOTE, "DESIGN.md §4 C23")
+reg("C30", "rv-manifest", "exploration", "round-trip monitor decompile -> compile",
+    "Generated manifests of all four kinds with valid object lifecycles and hostile argument values / names are decompiled and recompiled; instructions with all argument values, blobs, preallocated addresses, children and known object names must be identical.",
+    _PURE_NOTE, "DESIGN.md §4 C30")
+reg("C31", "rv-manifest", "exploration", "totality + determinism monitor under catch_unwind",
+    "Random, token-soup and mutated manifest texts with every line-ending convention and multi-byte characters are compiled twice for every manifest kind and, on error, rendered twice in both diagnostic styles; any panic or differing second answer is a violation.",
+    _PURE_NOTE, "DESIGN.md §4 C31")
+reg("C36", "rv-manifest", "exploration", "independent lifecycle checker vs static interpreter (soundness direction)",
+    "Random instruction sequences with injected id faults for all manifest kinds and rulesets: every manifest the StaticManifestInterpreter accepts must pass an independent linear-scan lifecycle checker written from the property text. The run-time half (accepted manifests never fail for unknown/consumed buckets or proofs) is monitored by the C09 ledger check, which reports under C36.",
+    _PURE_NOTE, "DESIGN.md §4 C36")
+reg("C32", "rv-tx", "exploration", "round-trip, reference hash composition and single-field sensitivity monitors",
+    "Generated V1/V2/partial/ledger/system payloads: raw -> prepare -> re-encode identity and hashes equal an independent reference composition; 78 single-field typed edits must change exactly the covering hashes; non-canonical payloads (trailing bytes, wrong discriminators, padded sizes, over-limit sizes) must be rejected; accepted byte mutants must re-encode identically.",
+    _PURE_NOTE, "DESIGN.md §4 C32")
+reg("C33", "rv-tx", "exploration", "ground-truth signer-set oracle + exhaustive byte mutation",
+    "The harness owns all keys and signs over reference hashes; accepted transactions must have an honest notary signature and only honest intent signatures, with the executable's signer proofs equal to the honest signer set (+notary iff signatory); every byte of short notarized transactions x 10 masks and thousands of random mutations of long ones must be rejected or leave content hashes and signer sets unchanged.",
+    _PURE_NOTE + " The mutation clause is applied to notarized transactions (a signed partial transaction has no notary).", "DESIGN.md §4 C33")
+reg("C34", "rv-tx", "exploration", "independent limit predicate with limit-1/limit/limit+1 probes",
+    "An independent predicate over plain facts of the typed model and the validation config; 20 limit dimensions are probed at limit-1, limit and limit+1 on otherwise valid V1/V2/partial transactions under babylon, cuttlefish and random configs; the V2 overall validity window must equal the intersection of all intents' windows.",
+    _PURE_NOTE, "DESIGN.md §4 C34")
+reg("C35", "rv-tx", "exploration", "independent graph oracle on accepted subintent trees",
+    "Mock intent trees (incl. self-loops, cycles, islands) and real V2 / partial transactions assembled field by field (shared, missing, duplicated children, depth +-1, yield count mismatches): every tree the validator accepts must pass an independent graph check of the property's conditions.",
+    _PURE_NOTE, "DESIGN.md §4 C35")
+reg("C06", "rv-engine", "exploration", "fee-equation monitor over receipts and raw vault substates",
+    "Transactions of the default mix re-packaged with generated tip specifiers and accepted costing-parameter overrides, several (contingent) fee locks, and lock-fee amounts bisected to the reject/commit boundary; every committed receipt must satisfy: payments + free credit = total cost, proposer + validator set + burn + royalties = total cost, PayFee events = payments, royalties credited to royalty vaults, cost units within limits; vault deltas are reconciled with their events.",
+    _LEDGER_NOTE + " Cost-unit metering (how many units an operation costs) is not re-derived.", "DESIGN.md §4 C06")
+reg("C11", "rv-engine", "exploration", "panic / native-trap monitor over all ledger workloads",
+    _MIX + "every execution is wrapped in catch_unwind and every receipt is scanned for native traps / system panics (the panic hook records panics swallowed by the native VM's own catch_unwind). The same monitor is armed in every other ledger check (auth, flow, account, pools, staking, intents ...), which contribute their hostile inputs.",
+    _LEDGER_NOTE + " Schema-driven fuzzing of every native function is not yet part of this check.", "DESIGN.md §4 C11")
+reg("C43", "rv-engine", "exploration", "history-set monitor of minted ids + data-entry diff monitor",
+    _MIX + "a history-long set of ever-minted (resource, id) pairs flags any second mint (explicit, RUID, after burn, after failed transactions); each minted id must have the resource's id type; every change of a stored non-fungible data entry is diffed field by field against the resource's mutable-field set.",
+    _LEDGER_NOTE, "DESIGN.md §4 C43")
+reg("C44", "rv-engine", "exploration", "ordering monitor on the stored clock + time-query agreement oracle",
+    "Round-change system transactions with arbitrary rounds/timestamps/leader gaps under several epoch-change conditions: after every commit the stored proposer milli/minute timestamps and (epoch, round) must be monotone, epoch +1 with round reset, minute = floor(milli/60000); get_current_time / compare_current_time results returned to callers must agree with the recorded clock at both precisions.",
+    _LEDGER_NOTE, "DESIGN.md §4 C44")
+reg("C49", "rv-engine", "exploration", "limit monitor on every committed user transaction (hook H4)",
+    _MIX + "for every committed user transaction: event/log counts and sizes, written substate value sizes, deepest call frame entered and largest invoke payload (hook H4) must be within the configured limits.",
+    _LEDGER_NOTE + " Boundary probes (exactly L / L+1 of each quantity) are not yet part of this check.", "DESIGN.md §4 C49")
+reg("C51", "rv-engine", "exploration", "locked-bytes-never-change monitor + lock scripts",
+    "Lock scripts on metadata entries and owner roles of accounts and resources followed by update/remove/lock/set-owner attempts by owner, other keys and nobody, interleaved with the default mix; a history-long map of every substate ever seen locked (fields and key-value entries, classified through the receipt's system structure) flags any later change of its bytes; an update of a locked entry must never commit successfully.",
+    _LEDGER_NOTE + " Locks taken by custom components (field_lock, key_value_entry_lock) and royalty locks are not exercised here.", "DESIGN.md §4 C51")
